@@ -130,6 +130,8 @@ def cases(draw):
     elif rule == "b64-no-crit":
         if not rfc7797:
             c["rule"] = "none"
+    if kind == "jwe" and direction == "produce" and ser != "compact":
+        c["template"] = draw(st.sampled_from([None, None, "encrypt-first", "headers-first"]))
     # strict checking only concerns unregistered names: every other rule holds when it is switched off
     c["lenient"] = c["rule"] in ("type", "missing", "crit", "custom-type", "custom-required", "b64-no-crit", "alg-specific-missing") and draw(st.integers(0, 3)) == 0
     if kind == "jwe" and ser == "general" and direction == "consume" and c["pos"] == "recipient" and alg in ("A128KW", "A128GCMKW", "PBES2-HS256+A128KW"):
@@ -284,8 +286,26 @@ def run_case(c) -> dict:
                     jwe.encrypt_compact(p, payload, key, **kw)
                 else:
                     cls = jwe.FlattenedJSONEncryption if c["ser"] == "flattened" else jwe.GeneralJSONEncryption
-                    o = cls(p, payload, u)
-                    o.add_recipient(r, key)
+                    if c.get("template"):
+                        # one object used as a template: a clean header first (encrypted, or merely looked at), then the header under
+                        # test is put into the same object, which is encrypted (again): every call validates what it is about to emit
+                        clean = {"alg": alg, "enc": "A128GCM"}
+                        if alg.startswith("PBES2"):
+                            clean["p2c"] = 8
+                        o = cls(clean, b"first message")
+                        o.add_recipient(None, key)
+                        if c["template"] == "encrypt-first":
+                            jwe.encrypt_json(o, None, algorithms=jweplan.ALL_NAMES)
+                        else:
+                            o.recipients[0].headers()
+                        o.plaintext = payload
+                        o.protected.clear()
+                        o.protected.update(p)
+                        o.unprotected = u
+                        o.recipients[0].header = r
+                    else:
+                        o = cls(p, payload, u)
+                        o.add_recipient(r, key)
                     jwe.encrypt_json(o, None, **kw)
             else:
                 rkey = k["ref"][kn]
@@ -331,7 +351,7 @@ def run_case(c) -> dict:
         err = e
     if exp == "dont_care":
         return {"_dont_care": 1}
-    where = f"{kind}:{c['dir']}:{c['ser']}{':7797' if c['rfc7797'] else ''}"
+    where = f"{kind}:{c['dir']}:{c['ser']}{':7797' if c['rfc7797'] else ''}{':template' if c.get('template') else ''}"
     desc = f"{c['rule']} {c.get('name')}={c.get('value')!r} in {c['pos']} header; protected={prot!r} unprotected={unprot!r} recipient={rec!r}"
     if exp == "reject" and status == "ok":
         return {f"C15:invalid-header-accepted:{c['rule']}:{c.get('name') if c['rule'] in ('type', 'missing', 'alg-specific-missing') else ''}:{where}":
